@@ -64,7 +64,7 @@ SPEC = dict(
     level="model_checking",
     rule="(The 'recycle' runs explore the narrow alphabet {setUserData, release, cloneNode, removeChild, importNode} on the same universe to depth 4, thorough 5: a released "
          "node's storage is handed to the next node of the same kind, so histories annotate, detach, release and create again.) "
-         "Universe: D1 = doc -> r -> [a, 'x'] plus detached element b, text 'y', comment c, attribute k, fragment f -> [e]; D2 = doc2 -> p:z (namespace urn:z). "
+         "Universe: D1 = doc -> r -> [a, 'x'] plus detached element b, comment c, attribute k, fragment f -> [e -> ['y']]; D2 = doc2 -> p:z (namespace urn:z). "
          "A state is an operation history replayed from scratch on fresh documents; BFS by depth, the frontier of each depth sharded over the workers; states are "
          "merged on the 128-bit hash of a canonical key of the reached forest = dump through the public getters (type, names, value, parent, first/last child, "
          "previous/next sibling, childNodes, attribute map with ownerElement, ownerDocument, user data) PLUS the hidden fields (DOMNodeImpl::flags and fOwnerNode, "
